@@ -427,6 +427,23 @@ def index_blocks(b: Blocks, idx: list) -> Val:
         if sp is None:
             sp = (rng(sym.Opq("len", ix)), fresh())
         return Arr([sp], sym.At(b.uid, b.elem_choice(), ix), "nd")
+    if len(idx) == 2 and all(it[0] in ("slice", "full") for it in idx) and all(it[0] == "full" or it[3] is None for it in idx):
+        # a rectangular read that coincides with one stored block (and no later store overlaps it) is that block
+        bounds = []
+        for k, it in enumerate(idx):
+            full = b.shape[k]
+            if it[0] == "full":
+                bounds += [sym.ZERO, full]
+            else:
+                bounds += [it[1] if it[1] is not None else sym.ZERO, it[2] if it[2] is not None else full]
+        hits = [s for s in b.stores if all(sym.equal(s[k], v) for k, v in zip(("r0", "r1", "c0", "c1"), bounds))]
+        if len(hits) == 1 and hits[0] is [s for s in b.stores if s in hits][-1]:
+            later = b.stores[b.stores.index(hits[0]) + 1:]
+            disjoint = all(sym.equal(s["r0"], bounds[1]) or sym.equal(s["r1"], bounds[0]) or sym.equal(s["c0"], bounds[3])
+                           or sym.equal(s["c1"], bounds[2]) for s in later)
+            v = hits[0]["val"]
+            if disjoint and isinstance(v, (Arr, DiagMat)):
+                return v
     return index(densify(b), idx)
 
 
